@@ -163,5 +163,5 @@ def hyp_cases(draw, tier):
 
 
 PARTS = [
-    Part("roundtrip", run, strategy=lambda tier: hyp_cases(tier), n={"quick": 1000, "thorough": 30000}),
+    Part("roundtrip", run, strategy=lambda tier: hyp_cases(tier), n={"quick": 1000, "thorough": 100000}),
 ]
